@@ -796,7 +796,7 @@ func (g *CGen) loopStmt(init, cond, inc, body, n *cNode) {
 	if ls.HavocAll {
 		g.havocAll(head)
 	}
-	for name := range g.assignedLocals(n) {
+	for _, name := range sortedKeys(g.assignedLocals(n)) {
 		if lv, ok := g.lookupLocal(name); ok && !lv.direct {
 			regions = append(regions, Region{Obj: pObj(lv.S), Lo: pOff(lv.S), Hi: g.M.ixAdd(pOff(lv.S), g.M.IxLit(g.L.Size(lv.T))), T: lv.T})
 		}
@@ -815,7 +815,7 @@ func (g *CGen) loopStmt(init, cond, inc, body, n *cNode) {
 	g.cLoopStack = append(g.cLoopStack, loopInfo)
 	// locals' well-formedness + invariants at the head
 	envH := g.cEnv(head)
-	for name := range g.assignedLocals(n) {
+	for _, name := range sortedKeys(g.assignedLocals(n)) {
 		if lv, ok := g.lookupLocal(name); ok && !lv.direct && !isComposite(lv.T) {
 			g.assumePC(g.wellFormed(g.loadVal(lv.S, lv.T), lv.T, head.Alloc))
 		}
@@ -1030,6 +1030,16 @@ func (g *CGen) addressTaken(n *cNode) map[string]bool {
 	}
 	walk(n)
 	return out
+}
+
+// sortedKeys: deterministic iteration order (the order of the generated commands influences the solvers)
+func sortedKeys(m map[string]bool) []string {
+	ks := make([]string, 0, len(m))
+	for k := range m {
+		ks = append(ks, k)
+	}
+	sort.Strings(ks)
+	return ks
 }
 
 func (g *CGen) containsCall(n *cNode) bool {
